@@ -707,8 +707,11 @@ def r_negslice(ctx, fqs):
                     continue
                 e = b[2] if b[0] == 'un' else b[3]
                 # -len(L) for a local list L that starts empty and is only filled by a loop: nothing makes the loop run
-                if is_call(e, 'builtins.len') and len(e[2]) == 1 and e[2][0][0] == 'v' and isinstance(e[2][0][2], tuple):
-                    L = e[2][0]
+                e_in = e[2][0] if is_call(e, 'builtins.len') and len(e[2]) == 1 else None
+                if e_in is not None and e_in[0] == 'sub' and e_in[2][0] == 'slice' and e_in[1][0] == 'v':
+                    e_in = e_in[1]          # len(L[:n]) is 0 as well when L is empty
+                if e_in is not None and e_in[0] == 'v' and isinstance(e_in[2], tuple):
+                    L = e_in
                     starts_empty = any(f.defs[i].kind == 'assign' and TermBuilder(f, f.defs[i].node).def_term(i) in (('list',), ('c', ''))
                                        for i in L[2])
                     grows_in_loop = [d for d in f.defs if d.name == L[1] and d.kind == 'mutate' and f.nodes[d.node].loops]
@@ -786,6 +789,76 @@ def r_zero(ctx, fqs):
     run.rule('R-ZERO', "the positions selected by a predicate (where(c)[0], nonzero, flatnonzero) are never reduced by any() / all(): "
                        "position 0 is falsy, so any() answers 'nothing selected' when only position 0 is; emptiness is len() / .size")
     n = 0
+    # a helper of the package that answers "the vertex reached, or None": vertex 0 (AA..A) is a vertex, so the answer is compared
+    # with None, never used as a truth value
+    from ..ctx import flatten_cond
+    optional_vertex = {}          # fq -> set of tuple components (None = the whole result) that are `vertex or None`
+    for gq, g in ctx.p.funcs.items():
+        comps = {}
+        for rn in g.stmts(ast.Return):
+            if rn.stmt.value is None:
+                continue
+            rt = g.term(rn.stmt.value, rn)
+            parts = list(enumerate(rt[1:])) if rt[0] == 'tuple' else [(None, rt)]
+            for i_, pt in parts:
+                kd = 'none' if pt == ('c', None) else (
+                    'vertex' if ctx.kinds.kind(pt, g) == 'ENTRY' or
+                    (pt[0] == 'v' and isinstance(pt[2], tuple) and any(
+                        (lambda dt: dt is not None and ctx.kinds.kind(dt, g) == 'ENTRY')(TermBuilder(g, g.defs[j].node).def_term(j))
+                        for j in pt[2] if g.defs[j].kind in ('assign', 'for'))) else 'other')
+                comps.setdefault(i_, set()).add(kd)
+        opt = {i_ for i_, ks in comps.items() if 'none' in ks and 'vertex' in ks}
+        if opt:
+            optional_vertex[gq] = opt
+    for fq in sorted(fqs):
+        f = ctx.p.func(fq)
+        if f is None:
+            continue
+        for nd in f.nodes:
+            if nd.kind != 'test':
+                continue
+            t = f.term(nd.ast, nd)
+            for atom, pol in flatten_cond(t, True):
+                # the same after the helper was inlined: the tested variable is bound to None on one path and to an accessor entry
+                # (possibly through a returned tuple) on another
+                def _kinds(x, depth=0):
+                    if x is None or depth > 4:
+                        return {'other'}
+                    if x == ('c', None):
+                        return {'none'}
+                    if ctx.kinds.kind(x, f) == 'ENTRY':
+                        return {'vertex'}
+                    if x[0] == 'item' and isinstance(x[2], int):
+                        out_ = set()
+                        for y in ([x[1]] if x[1][0] == 'tuple' else [t2 for _d, t2 in (f.alternatives(x[1]) or [])]):
+                            if y is not None and y[0] == 'tuple' and x[2] < len(y) - 1:
+                                out_ |= _kinds(y[1 + x[2]], depth + 1)
+                            else:
+                                out_.add('other')
+                        return out_ or {'other'}
+                    if x[0] == 'v' and isinstance(x[2], tuple):
+                        out_ = set()
+                        for _d, t2 in (f.alternatives(x) or []):
+                            out_ |= _kinds(t2, depth + 1)
+                        return out_ or {'other'}
+                    return {'other'}
+                if atom[0] in ('v', 'item'):
+                    ks_ = _kinds(atom)
+                    if 'none' in ks_ and 'vertex' in ks_:
+                        n += 1
+                        run.refute('R-ZERO', f, 'optional-vertex-as-truth-value', nd.lineno,
+                                   'a value that is "the vertex reached, or None" is tested by its truth value: vertex 0 (AA..A) is falsy, so '
+                                   'a walk that ends in it is treated as if it had left the graph',
+                                   inputs='graphs that contain the all-A vertex, walks ending in it')
+                        continue
+                src, comp = (atom[1], atom[2]) if atom[0] == 'item' else (atom, None)
+                cn = call_name(src) if src[0] == 'call' else None
+                if cn and cn in optional_vertex and comp in optional_vertex[cn]:
+                    n += 1
+                    run.refute('R-ZERO', f, 'optional-vertex-as-truth-value', nd.lineno,
+                               'the result of %s - the vertex reached, or None - is tested by its truth value: vertex 0 (AA..A) is falsy, so a '
+                               'walk that ends in it is treated as if it had left the graph' % cn.split('.')[-1],
+                               inputs='graphs that contain the all-A vertex, walks ending in it')
     for fq in sorted(fqs):
         f = ctx.p.func(fq)
         if f is None:
@@ -1076,6 +1149,30 @@ def r_namesake(ctx, fqs):
                             continue
                     run.undecided('R-NAMESAKE', f, 'star-forwarding', nd.lineno,
                                   'arguments of %s are forwarded through ** in a form that is not resolved' % callee.name)
+            # a parameter the caller has itself and the callee offers with a default is forwarded: otherwise the callee's default
+            # silently replaces what the caller was asked for (holds at every call site of the package)
+            if not any(k.arg is None for k in c.keywords) and not any(isinstance(a, ast.Starred) for a in c.args):
+                given = set(pos[:len(c.args)]) | {k.arg for k in c.keywords if k.arg}
+                for qn in f.params:
+                    if qn != 'self' and qn in callee.params and qn in callee.defaults and qn not in given:
+                        n += 1
+                        run.refute('R-NAMESAKE', f, 'not-forwarded:%s' % qn, nd.lineno,
+                                   "%s has the parameter `%s` and calls %s, which has it too, without passing it: the callee uses its own "
+                                   "default %s whatever the caller was given" % (f.name, qn, callee.name, ast.unparse(callee.defaults[qn])),
+                                   inputs='%s different from the default of %s' % (qn, callee.name))
+            # the same through an inlined private helper: the helper's own default (bound to `_i<n>_<q>` by the inliner) reaches the
+            # callee's q although the enclosing function has a parameter q of its own
+            import re as _re
+            for p, arg in bound:
+                m_ = _re.match(r'^_i\d+_(.+)$', arg)
+                if m_ and m_.group(1) == p and p in f.params and p in callee.params:
+                    ds_ = [d for d in f.defs if d.name == arg and d.kind != 'param']
+                    if len(ds_) == 1 and isinstance(ds_[0].value, ast.Constant):
+                        n += 1
+                        run.refute('R-NAMESAKE', f, 'not-forwarded:%s' % p, nd.lineno,
+                                   "%s has the parameter `%s`, but %s receives the default %r of a private helper that was called "
+                                   "without it: the value the caller was given is ignored"
+                                   % (f.name, p, callee.name, ds_[0].value.value), inputs='%s different from %r' % (p, ds_[0].value.value))
             for p, arg in bound:
                 if arg in f.params and arg != p and arg in callee.params and p in f.params and arg not in {d.name for d in f.defs if d.kind != 'param'}:
                     n += 1
